@@ -3,6 +3,8 @@
 package dv
 
 import (
+	"time"
+
 	"github.com/named-data/ndnd/dv/config"
 	"github.com/named-data/ndnd/dv/table"
 	"github.com/named-data/ndnd/dv/tlv"
@@ -112,4 +114,17 @@ func (dv *Router) Vf18NeighborSeq(name enc.Name) (uint64, bool) {
 		return 0, false
 	}
 	return ns.AdvertSeq, true
+}
+
+// Vf18ExpireNeighbor makes the neighbour look silent for longer than the dead interval (under the router lock),
+// so that the next dead sweep removes it. Returns false if there is no such neighbour.
+func (dv *Router) Vf18ExpireNeighbor(name enc.Name) bool {
+	dv.mutex.Lock()
+	defer dv.mutex.Unlock()
+	ns := dv.neighbors.Get(name)
+	if ns == nil {
+		return false
+	}
+	ns.Vf18SetLastSeen(time.Time{})
+	return true
 }
